@@ -3,7 +3,7 @@ Proof: XcpProps/C13.lean.  Correspondence (A): trees with links to files, direct
 relative and absolute, inside and outside the source, dangling, cyclic and ancestor loops, both drivers; the
 real end state vs the model's `L1run`; oracle on the real destination: no symbolic link, every link replaced
 by what it points to, dangling/cyclic => non-zero exit."""
-import os
+import os, subprocess
 from .. import core, treerun, treegen
 
 
@@ -193,6 +193,23 @@ def run(ctx):
         for i, sc in enumerate(scs):
             o = treerun.run(base, sc, timeout=60)
             runs.append((i, sc, o))
+        # a LARGE file reached several times (itself and through links, one of them a chain), the copies running at the same time and
+        # slowly: every copy has the SOURCE's bytes (compared byte by byte: larger than what the tree snapshots identify)
+        from .. import scen
+        for driver in ('parfile', 'parblock'):
+            d = base + '/BIG'
+            subprocess.run(['rm', '-rf', d]); os.makedirs(d + '/S/real')
+            big = bytes((k * 7 + k // 4096) % 251 for k in range(3 * 1048576 + 777))
+            open(d + '/S/big.img', 'wb').write(big); open(d + '/S/small', 'wb').write(b's')
+            os.symlink('big.img', d + '/S/l1'); os.symlink('../big.img', d + '/S/real/l2'); os.symlink('l1', d + '/S/zz')
+            r = scen.run_xcp(d, ['-r', '-L', '--driver', driver, '--workers', '4', 'S', 'D'], plan=['stall copy_file_range 120000'], timeout=90)
+            wrong = [n for n in ('big.img', 'l1', 'real/l2', 'zz') if not os.path.isfile(f'{d}/D/{n}') or os.path.islink(f'{d}/D/{n}') or open(f'{d}/D/{n}', 'rb').read() != big]
+            ctx.count(f'big_file_reached_several_times.exit.{r.cls}'); ctx.case(('big-file-twice', driver), True)
+            if r.cls == '0' and wrong:
+                ctx.violation(f'big-file-twice-{driver}.json', dict(driver=driver, wrong=wrong, stderr=r.stderr[-300:]),
+                              f'C13: a 3 MiB file reached through several links, copied concurrently: exit 0 but {wrong} do not hold the bytes of the file the link leads to ({driver})')
+            elif r.cls != '0':
+                ctx.violation(f'big-file-twice-{driver}-exit.json', dict(driver=driver, exit=r.cls, stderr=r.stderr[-300:]), f'-L copy of a tree whose links all resolve failed ({r.cls})', no_input=True)
         ans = core.ask(core.MODEL, [o.request for _, _, o in runs])
         # path resolution itself may fail (EACCES on a component, ENAMETOOLONG, EIO): then the run must fail, never fall back
         # to copying the link.  One faulted run per scenario that has a resolvable link.
